@@ -204,6 +204,21 @@ CHECKS = {
         "treated as not set. The connecter's loop is compared with its transcription through its ConnectRetried intervals (drift only).",
    technique="TLA+ spec (Isolation.tla, Backoff.tla) + TLC exhaustive incl. liveness; TLC behaviours replayed on the real ReconnectState; TLC trace validation (Trace_Isolation.tla) of recorded fault-injection and reconnect runs",
    design_ref="DESIGN.md 5 (C17)"),
+ "C20": dict(
+   text="Differential conformance against one contract: every workload (PUSH/PULL, DEALER/ROUTER, REQ/REP, PUB/SUB; 1 B .. 300 kB below / at / "
+        "above the buffer size; paced and stalled receivers; early data; PLAIN good / bad password; incompatible socket types; connect / "
+        "disconnect churn) runs on the Tokio backend and on io_uring x {zero-copy, multishot, cork} x pool sizes (2..16 buffers of 4..64 "
+        "KiB, one harness process per pool configuration); the timing-free application-visible projection (messages per receiver and "
+        "sender in order with integrity, kinds of results of every call, handshake outcome) must be identical and every run of either "
+        "backend is validated by TLC against Delivery.tla. TLC checks Uring.tla exhaustively (send-buffer pool, provided-buffer ring, "
+        "handler table keyed by fd: PoolConservation, NoOrphanBuffers, RingFull, QuiescentClean); hook events recorded inside the backend "
+        "(zc.acquire / zc.release, ring.take / ring.provide, fd.add / fd.close_queued / fd.closed / fd.remove) are followed as actions of "
+        "Uring.tla in Trace_Uring.tla - every step must be enabled, and once all sockets are closed everything must be back.",
+   note="The registered send-buffer pool is not reached by the data path of this revision (no zc.acquire is ever observed), so its clauses "
+        "are checked on the model only. fd events of connections opened before a run are ignored. PUB/SUB runs are compared for integrity "
+        "only. Known finding C20-d (LINGER on io_uring).",
+   technique="TLA+ spec (Uring.tla, Delivery.tla, Session.tla) + TLC; differential recorded histories (tokio vs io_uring configurations) validated by TLC against Delivery.tla; TLC trace validation (Trace_Uring.tla) of hook events from inside the io_uring backend",
+   design_ref="DESIGN.md 5 (C20)"),
 }
 
 NA_DEFAULT = "check not built yet (construction in progress; see DESIGN.md section 10)"
